@@ -270,6 +270,89 @@ def interpolateModes (m : Method) (order : Nat) (I : Interpolant α) (vols vArra
 
 end Glue
 
+/-! ### the glue with the exceptions of malformed inputs (round 5)
+
+`modeNodes` / `series` / `cell` / `interpolateModes` above are total where the real code raises: with NO volume the thinning methods
+take `[::0]` (`interval = int(ceil(0 / order)) = 0`: `ValueError: slice step cannot be zero`), and a volume block that lacks q-point
+`j` or mode `k` makes `volume.q_points[j].modes[k]` raise `IndexError` where `series` reads a default.  The definitions below reject
+what the real code rejects, in the order it does; on inputs with at least one volume whose blocks carry the `nq × np` frequencies they
+are the definitions above (`CijProofs/Lemmas/ModeGammaGlueSource.lean`: `interpolateModesF_eq`).  The older definitions are kept
+unchanged: C12 / C13 state their theorems about them. -/
+
+/-- `IndexError` (list index out of range) -/
+def indexError : Err := .other "IndexError"
+
+section Faithful
+variable {α : Type} [Neg α] [Zero α] [ExpLog α]
+
+/-- `[volume.q_points[j].modes[k] for volume in qha_input.volumes]`: volume by volume; `IndexError` at the first volume whose block has
+no q-point `j` or whose q-point `j` has no mode `k` -/
+def seriesE : List (List (List α)) → Nat → Nat → Except Err (List α)
+  | [], _, _ => .ok []
+  | vol :: rest, j, k =>
+    match vol[j]? with
+    | none => .error indexError
+    | some row =>
+      match row[k]? with
+      | none => .error indexError
+      | some x =>
+        match seriesE rest j k with
+        | .ok xs => .ok (x :: xs)
+        | .error e => .error e
+
+/-- `modeNodes` with the slice error: `interval = int(numpy.ceil(mode_volumes.shape[0] / order))` (`order = 0`: `ZeroDivisionError`), then
+`mode_volumes[::interval]`, `mode_freqs[::interval]` — the SAME interval (from the volumes) for both — `ValueError` when it is 0, i.e.
+when there is no volume. -/
+def modeNodesF {β : Type} (m : Method) (order : Nat) (vols freqs : List β) : Except Err (List β × List β) :=
+  match m with
+  | .lsqPoly | .unknown => .ok (vols, freqs)
+  | .spline => .ok (vols.reverse, freqs.reverse)
+  | .lagrange | .krogh | .pchip | .akima | .hermite =>
+    if order == 0 then .error .zeroDivision
+    else if thinInterval vols.length order == 0 then .error .valueError
+    else .ok ((stride (thinInterval vols.length order) vols).reverse, (stride (thinInterval vols.length order) freqs).reverse)
+
+/-- one `interpolate_mode_*` call, with the slice error -/
+def interpolateModeF (m : Method) (order : Nat) (I : Interpolant α) (vols freqs vArray : List α) :
+    Except Err (List (Triple α)) := do
+  let (nv, nf) ← modeNodesF m order vols freqs
+  if m == .hermite then .error .typeError
+  else finishMode I nv nf vArray
+
+/-- the body of the double loop for `(j, k)`: `continue` for the Γ-acoustic entries (BEFORE the series is read: a missing Γ-acoustic
+frequency is never noticed), then the series (`IndexError`), then the dispatch (no branch for an unknown method: zeros) -/
+def cellF (m : Method) (order : Nat) (I : Interpolant α) (vols vArray : List α) (freqs : List (List (List α))) (j k : Nat) :
+    Except Err (List (Triple α)) :=
+  if j == 0 && k < 3 then .ok (vArray.map fun _ => (0, 0, 0))
+  else match seriesE freqs j k with
+    | .error e => .error e
+    | .ok ser =>
+      if m == .unknown then .ok (vArray.map fun _ => (0, 0, 0))
+      else interpolateModeF m order I vols ser vArray
+
+/-- all cells `c j k` in loop order; the first exception aborts -/
+def cellsOf {β : Type} (c : Nat → Nat → Except Err β) (nq np : Nat) : Except Err (List (List β)) :=
+  collect ((List.range nq).map fun j => collect ((List.range np).map fun k => c j k))
+
+/-- `interpolate_modes(qha_input, v_array, method, order)` with the exceptions of malformed inputs -/
+def interpolateModesF (m : Method) (order : Nat) (I : Interpolant α) (vols vArray : List α) (nq np : Nat)
+    (freqs : List (List (List α))) :
+    Except Err (List (List (List α)) × List (List (List α)) × List (List (List α))) := do
+  let c ← cellsOf (cellF m order I vols vArray freqs) nq np
+  let ntv := vArray.length
+  pure (assemble ntv c (·.1), assemble ntv c (·.2.1), assemble ntv c (·.2.2))
+
+end Faithful
+
+/-- `numpy.linalg.lstsq` on a matrix with NO rows (no volume) returns the minimum-norm solution, all zeros, without raising: the fitted
+polynomial is 0 (ω = exp 0, γ = −0, V∂γ/∂V = −0); with at least one volume: `lsqInterpolant` -/
+def lsqInterpolantF {α : Type} [Add α] [Sub α] [Mul α] [Div α] [Neg α] [Zero α] [One α] [NatCast α] [BEq α]
+    (order : Nat) : Interpolant α := fun xs ys pts =>
+  if xs.isEmpty then
+    let a : List α := List.replicate (order + 1) 0
+    .ok (pts.map fun x => (polyval a x, polyval (polyder a) x, polyval (polyderN 2 a) x))
+  else lsqInterpolant order xs ys pts
+
 /-- the kernel each method uses: exact for the polynomial methods, the supplied library interpolant otherwise -/
 def kernelOf {α : Type} [Add α] [Sub α] [Mul α] [Div α] [Neg α] [Zero α] [One α] [NatCast α] [BEq α]
     (m : Method) (order : Nat) (lib : Interpolant α) : Interpolant α :=
